@@ -559,7 +559,7 @@ pub fn main(prop: &str, args: &Args) -> Report {
         return rep;
     }
     let thorough = args.thorough();
-    let n_cases = if thorough { 240 } else { 64 };
+    let n_cases = if thorough { 2400 } else { 64 };
     let deadline = Instant::now() + Duration::from_secs(args.budget_s(150, 2400));
     let seed = args.seed;
     let (mut out, done) = par_cases(n_cases, threads(), Some(deadline), |k| run_case(seed, k, thorough, None));
